@@ -6,9 +6,12 @@ import (
 	"flag"
 	"fmt"
 	"os"
+	"os/exec"
+	"path/filepath"
 	"runtime/debug"
 	"sort"
 	"strings"
+	"sync"
 
 	"verif/sa/internal/checks"
 	"verif/sa/internal/core"
@@ -139,7 +142,229 @@ func run(id, tier string) (code int) {
 	rep := core.NewReport(id, tier)
 	rep.Prog = prog
 	chk.Run(prog, rep)
+	if tier == "thorough" && os.Getenv("SA_NO_THOROUGH_EXTRAS") == "" {
+		if !buildMatrix(id, chk, rep) {
+			return 2
+		}
+		if !selfValidate(id, rep) {
+			return 2
+		}
+	}
 	return rep.Finish()
+}
+
+// buildMatrix re-runs the property's obligations on the other release targets, so that a build-constrained sibling file
+// cannot hide from the analysis. A configuration whose dependencies do not type-check offline is recorded, not judged.
+func buildMatrix(id string, chk checks.Check, rep *core.Report) bool {
+	type cfg struct{ goos, goarch string }
+	var done, skipped []string
+	for _, c := range []cfg{{"linux", "arm64"}, {"darwin", "arm64"}, {"darwin", "amd64"}, {"windows", "amd64"}} {
+		name := c.goos + "/" + c.goarch
+		prog, err := core.Load(core.LoadOpts{GOOS: c.goos, GOARCH: c.goarch})
+		if err != nil {
+			skipped = append(skipped, name+": "+firstLine(err.Error()))
+			continue
+		}
+		sub := core.NewReport(id, "quick")
+		sub.Prog = prog
+		ok := func() (ok bool) {
+			defer func() {
+				if e := recover(); e != nil {
+					fmt.Fprintf(os.Stderr, "INTERNAL-ERROR (no verdict) property=%s config=%s: %v\n", id, name, e)
+					ok = false
+				}
+			}()
+			chk.Run(prog, sub)
+			return true
+		}()
+		if !ok {
+			return false
+		}
+		nBad := 0
+		for _, ob := range sub.Obs {
+			if ob.Status == core.Violation || ob.Status == core.Undecided {
+				nBad++
+				dup := false
+				for _, o := range rep.Obs {
+					if o.Rule == ob.Rule && o.Construct == ob.Construct && o.Status == ob.Status {
+						dup = true // already reported under the default configuration
+						break
+					}
+				}
+				if !dup {
+					ob.Detail = "[only with GOOS=" + c.goos + " GOARCH=" + c.goarch + "] " + ob.Detail
+					rep.Obs = append(rep.Obs, ob)
+				}
+			}
+		}
+		for role, fl := range sub.Floors {
+			if sub.Counts[role] < fl {
+				nBad++
+				rep.Violation("FLOOR", "["+name+"] "+role, "-", "rule matched too few sites under this build configuration (%d < %d)", sub.Counts[role], fl)
+			}
+		}
+		if nBad == 0 {
+			rep.OK("MATRIX", "build configuration "+name, "-", "%d obligations hold with GOOS=%s GOARCH=%s (%d functions)", len(sub.Obs), c.goos, c.goarch, prog.NFuncs)
+		}
+		done = append(done, name)
+	}
+	rep.Extra["build_configurations_analysed"] = append([]string{"linux/amd64 (default)"}, done...)
+	rep.Extra["build_configurations_not_analysable"] = skipped
+	return true
+}
+
+func firstLine(s string) string {
+	if i := strings.Index(s, "\n"); i >= 0 {
+		return s[:i]
+	}
+	return s
+}
+
+// selfValidate checks the checker (DESIGN.md section 7): every variant under selftest/<id>/ that still applies to the
+// current working tree must make this property's check fail, and every negative control must leave it silent.
+func selfValidate(id string, rep *core.Report) bool {
+	vd := core.VerifDir()
+	self, _ := os.Executable()
+	type job struct {
+		path    string
+		wantBad bool
+	}
+	var jobs []job
+	vs, _ := filepath.Glob(filepath.Join(vd, "selftest", id, "*.diff"))
+	seeded, _ := filepath.Glob(filepath.Join(vd, "seeded", id, "*", "patch.diff"))
+	vs = append(vs, seeded...)
+	sort.Strings(vs)
+	for _, v := range vs {
+		jobs = append(jobs, job{v, true})
+	}
+	ns, _ := filepath.Glob(filepath.Join(vd, "selftest", "neg", "*.diff"))
+	sort.Strings(ns)
+	for _, n := range ns {
+		base := filepath.Base(n)
+		// a control named x.<ids>only.diff is a control for those properties only
+		if i := strings.Index(base, "only.diff"); i >= 0 {
+			scope := base[strings.LastIndex(base[:i], ".")+1 : i]
+			if !strings.Contains(scope, id) {
+				continue
+			}
+		}
+		jobs = append(jobs, job{n, false})
+	}
+	type res struct {
+		j      job
+		state  string // fired, silent, not-applicable, error
+		detail string
+	}
+	results := make([]res, len(jobs))
+	sem := make(chan struct{}, 6)
+	var wg sync.WaitGroup
+	for i, j := range jobs {
+		wg.Add(1)
+		go func(i int, j job) {
+			defer wg.Done()
+			sem <- struct{}{}
+			defer func() { <-sem }()
+			tmp, err := os.MkdirTemp("", "sa-variant-")
+			if err != nil {
+				results[i] = res{j, "error", err.Error()}
+				return
+			}
+			defer os.RemoveAll(tmp)
+			cp := exec.Command("rsync", "-a", "--exclude", ".git", core.RepoDir()+"/", tmp+"/")
+			if out, err := cp.CombinedOutput(); err != nil {
+				results[i] = res{j, "error", "copy failed: " + string(out)}
+				return
+			}
+			ap := exec.Command("git", "apply", "--unsafe-paths", "--directory="+tmp, j.path)
+			ap.Dir = tmp
+			if out, err := ap.CombinedOutput(); err != nil {
+				results[i] = res{j, "not-applicable", firstLine(string(out))}
+				return
+			}
+			c := exec.Command(self, "check", id, "--tier", "quick")
+			c.Env = append(os.Environ(), "VERIF_REPO="+tmp, "VERIF_EVIDENCE_DIR="+filepath.Join(tmp, ".evidence"), "VERIF_DIR="+vd)
+			out, err := c.CombinedOutput()
+			code := 0
+			if ee, ok := err.(*exec.ExitError); ok {
+				code = ee.ExitCode()
+			} else if err != nil {
+				results[i] = res{j, "error", err.Error()}
+				return
+			}
+			switch code {
+			case 0:
+				results[i] = res{j, "silent", ""}
+			case 1:
+				d := ""
+				for _, l := range strings.Split(string(out), "\n") {
+					if strings.HasPrefix(l, "VIOLATION") && !strings.HasPrefix(l, "VIOLATION property=") && !strings.Contains(l, "FLOOR") {
+						d = l
+						break
+					}
+				}
+				results[i] = res{j, "fired", d}
+			default:
+				results[i] = res{j, "not-applicable", "variant does not type-check on this tree"}
+			}
+		}(i, j)
+	}
+	wg.Wait()
+	nVar, nFired, nNA, nNeg, nSilent, nNAVar := 0, 0, 0, 0, 0, 0
+	var samples []string
+	ok := true
+	for _, r0 := range results {
+		name := strings.TrimPrefix(r0.j.path, vd+"/")
+		if r0.state == "error" {
+			fmt.Fprintf(os.Stderr, "SELFTEST-ERROR %s: %s\n", name, r0.detail)
+			ok = false
+			continue
+		}
+		if r0.j.wantBad {
+			nVar++
+			switch r0.state {
+			case "fired":
+				nFired++
+				if len(samples) < 6 {
+					samples = append(samples, name+" → "+truncate(r0.detail, 220))
+				}
+			case "not-applicable":
+				nNA++
+				nNAVar++
+			case "silent":
+				fmt.Fprintf(os.Stderr, "SELFTEST-FAIL property=%s: variant %s applies to the current tree but the check stays silent (the checker is not to be believed)\n", id, name)
+				ok = false
+			}
+		} else {
+			nNeg++
+			switch r0.state {
+			case "silent":
+				nSilent++
+			case "not-applicable":
+				nNA++
+				nNeg--
+			case "fired":
+				fmt.Fprintf(os.Stderr, "SELFTEST-FAIL property=%s: behaviour-preserving control %s makes the check fire: %s\n", id, name, r0.detail)
+				ok = false
+			}
+		}
+	}
+	rep.Extra["variants_total"] = nVar
+	rep.Extra["variants_fired"] = nFired
+	rep.Extra["variants_not_applicable_to_this_tree"] = nNA
+	rep.Extra["negative_controls_total"] = nNeg
+	rep.Extra["negative_controls_silent"] = nSilent
+	rep.Extra["variant_samples"] = samples
+	if ok {
+		rep.OK("SELFTEST", "checker validation", "-", "%d/%d applicable seeded variants fire, %d/%d behaviour-preserving controls stay silent (%d not applicable to this tree)", nFired, nVar-nNAVar, nSilent, nNeg, nNA)
+	}
+	return ok
+}
+
+func truncate(s string, n int) string {
+	if len(s) > n {
+		return s[:n] + "…"
+	}
+	return s
 }
 
 func dumpTerms(rel, name string) int {
